@@ -9,9 +9,12 @@ C: harness/src/bin/c15.rs runs edit / evaluate / load_script histories on one lo
     (2) with the extracted model, result class and set of bodies run  -> correspondence
     (3) with the per-module evaluation counter since the last edit    -> `evaluated-twice`   (the property)
     (4) cycle errors: the named chain must be a genuine import cycle  -> `cycle-chain-*`     (the property)
-  The model is run twice: `spec` (every source change starts a revision: C15_inc_equals_fresh) and
-  `asis` (src/query.rs:213 as it stands: C15_inc_equals_fresh_asis_refuted / _partial).  A stale
-  history that the `asis` model reproduces exactly is the known add_module defect.
+  The model is run under three add_module policies: `spec` (a first definition starts a revision iff the
+  module was requested before: C15_inc_equals_fresh), `always` (every first definition does:
+  C15_inc_equals_fresh_always) and `asis` (src/query.rs:213 as it stands, never:
+  C15_inc_equals_fresh_asis_refuted / _partial).  The implementation must follow one of the two proved
+  policies on every history; a history that deviates and that the `asis` model reproduces exactly is
+  the known add_module defect.
 """
 import hashlib
 import json
@@ -66,20 +69,69 @@ def tie(ctx, tier_override=None, tag="tie", extra=()):
         ctx.harness_crash = out[-1500:]
         return None
     p = lambda n: os.path.join(out_dir, n)
+    cases = common.read_lines(p("cases.txt"))
+    with open(p("model_in_always.txt"), "w") as f:
+        for c in cases:
+            f.write("always|%s\n" % c)
     if not ctx.run_model(model, p("model_in.txt"), p("model_out.txt")):
         return None
     if not ctx.run_model(model, p("model_in_asis.txt"), p("model_asis_out.txt")):
         return None
+    if not ctx.run_model(model, p("model_in_always.txt"), p("model_always_out.txt")):
+        return None
+    impl = common.read_lines(p("impl_out.txt"))
+    spec = common.read_lines(p("model_out.txt"))
+    always = common.read_lines(p("model_always_out.txt"))
+    # both policies are proved correct; the implementation is held to the one it follows
+    nd = lambda a: sum(1 for i in range(len(impl)) if i >= len(a) or a[i] != impl[i])
+    d_spec, d_always = nd(spec), nd(always)
+    policy = "always" if d_always < d_spec else "spec"
     res = {
         "dir": out_dir,
-        "cases": common.read_lines(p("cases.txt")),
-        "impl": common.read_lines(p("impl_out.txt")),
-        "spec": common.read_lines(p("model_out.txt")),
+        "cases": cases,
+        "impl": impl,
+        "spec": always if policy == "always" else spec,
         "asis": common.read_lines(p("model_asis_out.txt")),
         "violations": json.load(open(p("violations.json"))),
         "stats": json.load(open(p("stats.json"))),
+        "policy": policy,
+        "policy_diffs": {"spec(new-if-requested)": d_spec, "always": d_always},
     }
     return res
+
+
+def reproduces(ctx, text, kind):
+    """Does the harness still report a violation of `kind` on this history?"""
+    rc, out = common.sh([ctx.harness_bin("c15"), "json=1", "history=" + text], timeout=60)
+    if rc == 124:
+        return kind == "hang"
+    if rc != 0:
+        return kind in ("crash", "panic")
+    try:
+        d = json.loads(out.strip().splitlines()[-1])
+    except Exception:
+        return False
+    return any(v.get("kind") == kind for v in d.get("violations", []))
+
+
+def minimise(ctx, text, kind, budget=60):
+    """Greedy one-op-at-a-time reduction of a failing history (keeps the violation kind)."""
+    ops = text.split("|")
+    changed = True
+    while changed and budget > 0:
+        changed = False
+        for i in range(len(ops)):
+            cand = ops[:i] + ops[i + 1:]
+            if not any(o.startswith(("eval", "load")) for o in cand):
+                continue
+            budget -= 1
+            if budget <= 0:
+                break
+            if reproduces(ctx, "|".join(cand), kind):
+                ops = cand
+                changed = True
+                break
+    return "|".join(ops)
 
 
 def analyse(ctx, res):
@@ -92,6 +144,7 @@ def analyse(ctx, res):
     findings = []  # (key, what, case, expected, observed, extra)
     explained = []  # histories whose deviation from spec the as-is model reproduces exactly
     mismatch = []  # model / implementation disagreements that are not property violations
+    raw_unexplained = []  # property violations the as-is model does not explain: minimised below
     n_diff_spec = 0
     for i in range(n):
         il = impl[i] if i < len(impl) else "<missing>"
@@ -106,21 +159,16 @@ def analyse(ctx, res):
             # exactly the behaviour of add_module without a new revision for a first definition
             explained.append((i, stale))
         elif stale:
-            findings.append(("stale:" + hkey(cases[i]),
-                             "history `%s`: the long-lived VM answers %s, a fresh VM given the latest sources answers (model: %s)"
-                             % (cases[i], il, sl), {"history": cases[i]}, sl, il, {"harness": [v for v in hv if v["kind"] == "stale"][:3]}))
+            raw_unexplained.append((i, "stale", sl, il, [v for v in hv if v["kind"] == "stale"][:3]))
         elif il != sl and not kinds & {"hang", "crash"}:
             mismatch.append((i, cases[i], sl, il))
         for v in hv:
             k = v["kind"]
             if k == "evaluated-twice":
-                findings.append(("evaluated-twice:" + hkey(cases[i]),
-                                 "history `%s`: the body of module %s ran %s times without an edit in between (step %s)"
-                                 % (cases[i], v.get("module"), v.get("since_last_edit", v.get("in_this_evaluation")), v.get("step")),
-                                 {"history": cases[i]}, sl, il, {"harness": v}))
+                if not any(u[0] == i and u[1] == k for u in raw_unexplained):
+                    raw_unexplained.append((i, k, sl, il, [v]))
             elif k == "hang":
-                findings.append(("cycle-hang:" + hkey(cases[i]), "history `%s` did not finish within the watchdog time (hang)" % cases[i],
-                                 {"history": cases[i]}, sl, "<hang>", {"harness": v}))
+                raw_unexplained.append((i, k, sl, "<hang>", [v]))
             elif k in ("crash", "panic"):
                 findings.append((k + ":" + hkey(cases[i]), "history `%s`: the VM %s" % (cases[i], "process died" if k == "crash" else "panicked"),
                                  {"history": cases[i]}, sl, il, {"harness": v}))
@@ -128,6 +176,26 @@ def analyse(ctx, res):
                 findings.append(("cycle-chain-wrong:" + hkey(cases[i]),
                                  "history `%s`: the cyclic-dependency error names `%s`, which is not an import cycle of the sources"
                                  % (cases[i], v.get("chain")), {"history": cases[i]}, "a genuine import cycle (C15_cycle_reported)", v.get("chain"), {"harness": v}))
+    # unexplained property violations: shortest first, the first few minimised, one finding per minimal history
+    raw_unexplained.sort(key=lambda u: (len(cases[u[0]].split("|")), u[0]))
+    label = {"stale": "stale", "evaluated-twice": "evaluated-twice", "hang": "cycle-hang"}
+    seen_min = set()
+    for n_done, (i, kind, sl, il, hv) in enumerate(raw_unexplained):
+        text = cases[i]
+        if n_done < 8:
+            text = minimise(ctx, text, kind)
+        key = label[kind] + ":" + hkey(text)
+        if key in seen_min:
+            continue
+        seen_min.add(key)
+        if kind == "stale":
+            what = ("history `%s` (minimised from `%s`): the long-lived VM answers differently from a fresh VM given the latest sources "
+                    "(implementation: %s; model: %s)" % (text, cases[i], il, sl))
+        elif kind == "evaluated-twice":
+            what = "history `%s` (minimised from `%s`): a module body ran more than once without an edit in between (%s)" % (text, cases[i], il)
+        else:
+            what = "history `%s` (minimised from `%s`) did not finish within the watchdog time (hang)" % (text, cases[i])
+        findings.append((key, what, {"history": text, "original": cases[i]}, sl, il, {"harness": hv}))
     # the two standing defects are reported once each, on their shortest history
     chain_hist = sorted(((len(cases[v["history_index"]].split("|")), v["history_index"], v) for v in res["violations"] if v["kind"] == "cycle-chain-incomplete"),
                         key=lambda t: (t[0], t[1]))
@@ -148,7 +216,8 @@ def analyse(ctx, res):
                          "add_module without a new revision (C15_inc_equals_fresh_asis_refuted), %d stale histories"
                          % (cases[i], impl[i], len(stale_expl)),
                          {"history": cases[i]}, spec[i], impl[i], {"histories": len(stale_expl)}))
-    summary = {"histories": n, "differ_from_spec_model": n_diff_spec, "explained_by_asis_model": len(explained),
+    summary = {"histories": n, "reference_policy": res.get("policy"), "lines_differing_per_policy": res.get("policy_diffs"),
+               "differ_from_spec_model": n_diff_spec, "explained_by_asis_model": len(explained),
                "stale_explained": len(stale_expl), "model_mismatch": len(mismatch),
                "harness_violation_kinds": sorted(set(v["kind"] for v in res["violations"]))}
     return findings, mismatch, summary
